@@ -29,6 +29,17 @@ def export_garr(kind, arr):
     return C.Rec(CTOR[kind], rec)
 
 
+def modelled(kind, garr):
+    """the part of Spec/CxSpec.v g_modelled that the model itself does not report as
+    'outside the domain': every innermost offset is even (each part of each element starts
+    on an (x, y) pair boundary of the values buffer)"""
+    if kind == 'point':
+        return True
+    rec = garr.args[0]
+    offs = rec.args[3]
+    return all(int(x) % 2 == 0 for x in offs[-1])
+
+
 def pylist(arr):
     """the elements of an array as hashable keys (None = missing)"""
     out = []
